@@ -33,9 +33,6 @@ type vectorOperator struct {
 
 	// series contains the output series of the operator
 	series []labels.Labels
-	// The outputCache is an internal cache used to calculate
-	// the binary operation of the lhs and rhs operator.
-	outputCache []outputSample
 	// table is used to calculate the binary operation of two step vectors between
 	// the lhs and rhs operator.
 	table *table
@@ -123,41 +120,14 @@ func (o *vectorOperator) initOutputs(ctx context.Context) error {
 	o.lhSampleIDs = highCardSide
 	o.rhSampleIDs = lowCardSide
 
+	// The "one" side of the match is the right-hand side, unless group_right is used.
+	manySide, oneSide := o.lhSampleIDs, o.rhSampleIDs
 	if o.matching.Card == parser.CardOneToMany {
-		highCardSide, lowCardSide = lowCardSide, highCardSide
+		manySide, oneSide = oneSide, manySide
 	}
 
-	buf := make([]byte, 1024)
-	var includeLabels []string
-	if len(o.matching.Include) > 0 {
-		includeLabels = o.matching.Include
-	}
-	keepLabels := o.matching.Card != parser.CardOneToOne
-	keepName := !shouldDropMetricName(o.opType, o.returnBool)
-	highCardHashes, highCardInputMap := o.hashSeries(highCardSide, keepLabels, keepName, buf)
-	lowCardHashes, lowCardInputMap := o.hashSeries(lowCardSide, keepLabels, keepName, buf)
-	output, highCardOutputIndex, lowCardOutputIndex := o.join(highCardHashes, highCardInputMap, lowCardHashes, lowCardInputMap, includeLabels)
-
-	series := make([]labels.Labels, len(output))
-	for _, s := range output {
-		series[s.ID] = s.Metric
-	}
-	o.series = series
-
-	o.outputCache = make([]outputSample, len(series))
-	for i := range o.outputCache {
-		o.outputCache[i].lhT = -1
-	}
-	o.pool.SetStepSize(len(highCardSide))
-
-	o.table = newTable(
-		o.pool,
-		o.matching.Card,
-		o.operation,
-		o.outputCache,
-		newHighCardIndex(highCardOutputIndex),
-		lowCardinalityIndex(lowCardOutputIndex),
-	)
+	o.table, o.series = o.join(manySide, oneSide)
+	o.pool.SetStepSize(len(o.series))
 
 	return nil
 }
@@ -194,25 +164,11 @@ func (o *vectorOperator) Next(ctx context.Context) ([]model.StepVector, error) {
 	for i, vector := range lhs {
 		if i < len(rhs) {
 			step, err := o.table.execBinaryOperation(lhs[i], rhs[i], o.returnBool)
-			if err == nil {
-				batch = append(batch, step)
-				o.rhs.GetPool().PutStepVector(rhs[i])
-				continue
+			if err != nil {
+				return nil, o.matchError(err)
 			}
-
-			var sampleID, duplicateSampleID labels.Labels
-			switch err.side {
-			case lhBinOpSide:
-				sampleID = o.lhSampleIDs[err.sampleID]
-				duplicateSampleID = o.lhSampleIDs[err.duplicateSampleID]
-			case rhBinOpSide:
-				sampleID = o.rhSampleIDs[err.sampleID]
-				duplicateSampleID = o.rhSampleIDs[err.duplicateSampleID]
-			}
-			group := sampleID.MatchLabels(o.matching.On, o.matching.MatchingLabels...)
-			msg := "found duplicate series for the match group %s on the %s hand-side of the operation: [%s, %s]" +
-				";many-to-many matching not allowed: matching labels must be unique on one side"
-			return nil, errors.Newf(msg, group, err.side, sampleID.String(), duplicateSampleID.String())
+			batch = append(batch, step)
+			o.rhs.GetPool().PutStepVector(rhs[i])
 		}
 		o.lhs.GetPool().PutStepVector(vector)
 	}
@@ -222,98 +178,107 @@ func (o *vectorOperator) Next(ctx context.Context) ([]model.StepVector, error) {
 	return batch, nil
 }
 
+// matchError renders an ambiguous match like Prometheus does.
+func (o *vectorOperator) matchError(err *errManyToManyMatch) error {
+	switch err.kind {
+	case errMultipleMatchesOneToOne:
+		return errors.New("multiple matches for labels: many-to-one matching must be explicit (group_left/group_right)")
+	case errMultipleMatchesGrouping:
+		return errors.New("multiple matches for labels: grouping labels must ensure unique matches")
+	}
+	// Duplicate series on the "one" side.
+	side, series := rhBinOpSide, o.rhSampleIDs
+	if o.matching.Card == parser.CardOneToMany {
+		side, series = lhBinOpSide, o.lhSampleIDs
+	}
+	sampleID, duplicateSampleID := series[err.sampleID], series[err.duplicateSampleID]
+	group := sampleID.MatchLabels(o.matching.On, o.matching.MatchingLabels...)
+	msg := "found duplicate series for the match group %s on the %s hand-side of the operation: [%s, %s]" +
+		";many-to-many matching not allowed: matching labels must be unique on one side"
+	return errors.Newf(msg, group, side, sampleID.String(), duplicateSampleID.String())
+}
+
 func (o *vectorOperator) GetPool() *model.VectorPool {
 	return o.pool
 }
 
-// hashSeries calculates the hash of each series from an input operator.
-// Since series from the high cardinality operator can map to multiple output series,
-// hashSeries returns an index from hash to a slice of resulting series, and
-// a map from input series ID to output series ID.
-// The latter can be used to build an array backed index from input model.Series to output model.Series,
-// avoiding expensive hashmap lookups.
-func (o *vectorOperator) hashSeries(series []labels.Labels, keepLabels, keepName bool, buf []byte) (map[uint64][]model.Series, map[uint64][]uint64) {
-	hashes := make(map[uint64][]model.Series)
-	inputIndex := make(map[uint64][]uint64)
-	for i, s := range series {
-		sig, lbls := signature(s, !o.matching.On, o.groupingLabels, keepLabels, keepName, buf)
-		if _, ok := hashes[sig]; !ok {
-			hashes[sig] = make([]model.Series, 0, 1)
-			inputIndex[sig] = make([]uint64, 0, 1)
+// join computes the static part of the match between the series of the "many"
+// and of the "one" side: the match group of every series and the output series.
+//
+// Which samples actually meet is decided step by step by the table, like in
+// Prometheus: two samples of one match group on the "one" side fail the query,
+// and so do two results with the same label set at one step.
+func (o *vectorOperator) join(manySide, oneSide []labels.Labels) (*table, []labels.Labels) {
+	var (
+		buf        = make([]byte, 1024)
+		keepLabels = o.matching.Card != parser.CardOneToOne
+		keepName   = !shouldDropMetricName(o.opType, o.returnBool)
+		include    = o.matching.Include
+		groups     = make(map[uint64]int)
+		oneGroup   = make([]int, len(oneSide))
+		oneLocal   = make([]int, len(oneSide))
+		groupOnes  [][]int
+	)
+	for i, s := range oneSide {
+		sig, _ := signature(s, !o.matching.On, o.groupingLabels, keepLabels, keepName, buf)
+		g, ok := groups[sig]
+		if !ok {
+			g = len(groupOnes)
+			groups[sig] = g
+			groupOnes = append(groupOnes, nil)
 		}
-		hashes[sig] = append(hashes[sig], model.Series{
-			ID:     uint64(i),
-			Metric: lbls,
-		})
-		inputIndex[sig] = append(inputIndex[sig], uint64(i))
+		oneGroup[i] = g
+		oneLocal[i] = len(groupOnes[g])
+		groupOnes[g] = append(groupOnes[g], i)
 	}
 
-	return hashes, inputIndex
-}
-
-// join performs a join between series from the high cardinality and low cardinality operators.
-// It does that by using hash maps which point from series hash to the output series.
-// It also returns array backed indices for the high cardinality and low cardinality operators,
-// pointing from input model.Series ID to output model.Series ID.
-// The high cardinality operator can fail to join, which is why its index contains nullable values.
-// The low cardinality operator can join to multiple high cardinality series, which is why its index
-// points to an array of output series.
-func (o *vectorOperator) join(
-	highCardHashes map[uint64][]model.Series,
-	highCardInputIndex map[uint64][]uint64,
-	lowCardHashes map[uint64][]model.Series,
-	lowCardInputIndex map[uint64][]uint64,
-	includeLabels []string,
-) ([]model.Series, []*uint64, [][]uint64) {
-	// Output index points from output series ID
-	// to the actual series.
-	outputIndex := make([]model.Series, 0)
-
-	// Prune high cardinality series which do not have a
-	// matching low cardinality series.
-	outputSize := 0
-	for hash, series := range highCardHashes {
-		outputSize += len(series)
-		if _, ok := lowCardHashes[hash]; !ok {
-			delete(highCardHashes, hash)
+	var (
+		series     []labels.Labels
+		outputIDs  = make(map[string]uint64)
+		manyGroup  = make([]int, len(manySide))
+		manyOutput = make([][]uint64, len(manySide))
+	)
+	output := func(lbls labels.Labels) uint64 {
+		buf = lbls.Bytes(buf)
+		id, ok := outputIDs[string(buf)]
+		if !ok {
+			id = uint64(len(series))
+			outputIDs[string(buf)] = id
+			series = append(series, lbls)
+		}
+		return id
+	}
+	for i, s := range manySide {
+		sig, lbls := signature(s, !o.matching.On, o.groupingLabels, keepLabels, keepName, buf)
+		g, ok := groups[sig]
+		if !ok {
+			// No series to match with.
+			manyGroup[i] = -1
 			continue
 		}
-	}
-	lowCardOutputSize := 0
-	for _, lowCardOutputs := range lowCardInputIndex {
-		lowCardOutputSize += len(lowCardOutputs)
-	}
-
-	highCardOutputIndex := make([]*uint64, outputSize)
-	lowCardOutputIndex := make([][]uint64, lowCardOutputSize)
-	for hash, highCardSeries := range highCardHashes {
-		for _, lowCardSeriesID := range lowCardInputIndex[hash] {
-			// Each low cardinality series can map to multiple output series.
-			lowCardOutputIndex[lowCardSeriesID] = make([]uint64, 0, len(highCardSeries))
+		manyGroup[i] = g
+		if len(include) == 0 {
+			// The result labels do not depend on the matched series.
+			manyOutput[i] = []uint64{output(lbls)}
+			continue
 		}
-
-		lowCardSeries := lowCardHashes[hash][0]
-		for i, output := range highCardSeries {
-			highCardSeriesID := highCardInputIndex[hash][i]
-			if o.matching.Card == parser.CardOneToOne && i > 0 {
-				// In a one-to-one match the result labels are the labels of the match group,
-				// so all series of the group share one output series. Two of them having
-				// a sample at the same step is reported as many-to-many matching.
-				highCardOutputIndex[highCardSeriesID] = highCardOutputIndex[highCardInputIndex[hash][0]]
-				continue
+		// Included labels are taken from the series of the "one" side which has
+		// a sample at the step, so there is one output per possible partner.
+		manyOutput[i] = make([]uint64, len(groupOnes[g]))
+		for j, one := range groupOnes[g] {
+			lb := labels.NewBuilder(lbls)
+			for _, ln := range include {
+				if v := oneSide[one].Get(ln); v != "" {
+					lb.Set(ln, v)
+				} else {
+					lb.Del(ln)
+				}
 			}
-			outputSeries := buildOutputSeries(uint64(len(outputIndex)), output, lowCardSeries, includeLabels)
-			outputIndex = append(outputIndex, outputSeries)
-
-			highCardOutputIndex[highCardSeriesID] = &outputSeries.ID
-
-			for _, lowCardSeriesID := range lowCardInputIndex[hash] {
-				lowCardOutputIndex[lowCardSeriesID] = append(lowCardOutputIndex[lowCardSeriesID], outputSeries.ID)
-			}
+			manyOutput[i][j] = output(lb.Labels(nil))
 		}
 	}
 
-	return outputIndex, highCardOutputIndex, lowCardOutputIndex
+	return newTable(o.pool, o.matching.Card, o.operation, len(groupOnes), len(series), oneGroup, oneLocal, manyGroup, manyOutput), series
 }
 
 func signature(metric labels.Labels, without bool, grouping []string, keepOriginalLabels, keepName bool, buf []byte) (uint64, labels.Labels) {
@@ -343,15 +308,4 @@ func signature(metric labels.Labels, without bool, grouping []string, keepOrigin
 
 	key, _ := metric.HashForLabels(buf, grouping...)
 	return key, lb.Labels(nil)
-}
-
-func buildOutputSeries(seriesID uint64, highCardSeries, lowCardSeries model.Series, includeLabels []string) model.Series {
-	metric := highCardSeries.Metric
-	if len(includeLabels) > 0 {
-		lowCardLabels := labels.NewBuilder(lowCardSeries.Metric).
-			Keep(includeLabels...).
-			Labels(nil)
-		metric = append(metric, lowCardLabels...)
-	}
-	return model.Series{ID: seriesID, Metric: metric}
 }
